@@ -6,6 +6,7 @@ import FwdVerif.Driver.C16
 import FwdVerif.Driver.Req
 import FwdVerif.Driver.Resp
 import FwdVerif.Driver.C17
+import FwdVerif.Driver.C20
 
 open FwdVerif
 
@@ -15,6 +16,7 @@ def dispatch (line : String) : String :=
   | "REQ" :: rest => Req.handle rest
   | "RESP" :: rest => Resp.handle rest
   | "C17" :: rest => C17.handle rest
+  | "C20" :: rest => C20.handle rest
   | ["ping"] => "pong"
   | _ => "bad-op"
 
